@@ -387,12 +387,21 @@ def run(case):
   except M.Invalid:
     res['discarded'] = 'ctor-invalid'
     return res
-  cfg = mk_i(init)
+  try:
+    cfg = mk_i(init)
+  except Exception as e:  # pylint: disable=broad-except
+    msg = (f'Python binds {case["init"]["args"]} / {sorted(case["init"]["kwargs"])} to the '
+           f'signature, but the constructor raised {type(e).__name__}: '
+           + C.norm_text(str(e))[:200])
+    res['violations'].append(viol('C03', 'valid-op-raised', {'op': 'construct'}, msg, m))
+    res['violations'].append(viol('C01', 'constructor-binding', {'op': 'construct'}, msg, m))
+    return res
   om, oi = C.canon(observe_model(m)), C.canon(observe_impl(cfg, m))
   if om != oi:
-    res['violations'].append(viol(
-        'C03', 'state-mismatch', {'op': 'construct'},
-        'after construction: ' + '; '.join(C.diff(om, oi)), m))
+    msg = 'after construction: ' + '; '.join(C.diff(om, oi))
+    res['violations'].append(viol('C03', 'state-mismatch', {'op': 'construct'}, msg, m))
+    # binding the constructor arguments into storage is equally C01's ground
+    res['violations'].append(viol('C01', 'constructor-binding', {'op': 'construct'}, msg, m))
     return res
   changing = 0
   for idx, op in enumerate(case['ops']):
@@ -537,7 +546,7 @@ def shrink_candidates(case):
     c = copy.deepcopy(case)
     c['spec']['kind'] = 'func'
     c['spec'].pop('pre', None)
-    if all(p[2] != 'f' for p in c['spec']['params']):
+    if all(p[2] != 'f' for p in c['spec']['params']) and case['spec']['kind'] != 'uinst':
       yield c
   # simplify values to plain tokens
   for i, op in enumerate(ops):
